@@ -138,11 +138,48 @@ def h_idempotence(V, idempotent=False):
         V.check(n == 1, 'non-idempotent-never-speculative', note='%d messages sent' % n)
 
 
+def h_speculative_gate(V):
+    """the real Session._create_response_future: a speculative plan (and the speculative timer) only for statements
+    marked idempotent, whatever the execution profile's speculative policy"""
+    import types
+    import cassandra.cluster as cc
+    from cassandra import query as cq
+    from cassandra.policies import RetryPolicy, ConstantSpeculativeExecutionPolicy, RoundRobinPolicy, NoSpeculativeExecutionPlan
+    from cassandra.encoder import Encoder
+    timers = []
+    idem = V.flag('statement_is_idempotent')
+    kind = V.pick('statement', ['simple', 'bound', 'batch'])
+    prof = cc.ExecutionProfile(load_balancing_policy=RoundRobinPolicy(), retry_policy=RetryPolicy(), request_timeout=10.0,
+                               speculative_execution_policy=ConstantSpeculativeExecutionPolicy(0.1, 2))
+    cluster = types.SimpleNamespace(
+        _config_mode=cc._ConfigMode.PROFILES, _default_load_balancing_policy=RoundRobinPolicy(), timestamp_generator=lambda: 1,
+        allow_beta_protocol_version=False, profile_manager=types.SimpleNamespace(profiles={cc.EXEC_PROFILE_DEFAULT: prof}),
+        connection_class=types.SimpleNamespace(create_timer=lambda t, cb: timers.append((t, cb.__name__)) or types.SimpleNamespace(cancel=lambda: None)))
+    sess = types.SimpleNamespace(cluster=cluster, row_factory=cq.named_tuple_factory, _protocol_version=4, default_fetch_size=5000,
+                                 use_client_timestamp=True, encoder=Encoder(), _metrics=None, keyspace='ks')
+    sess._maybe_get_execution_profile = lambda ep: cc.Session._maybe_get_execution_profile(sess, ep)
+    sess.get_execution_profile = lambda name: cc.Session.get_execution_profile(sess, name)
+    if kind == 'simple':
+        q = cq.SimpleStatement('SELECT 1', is_idempotent=idem)
+    elif kind == 'batch':
+        q = cq.BatchStatement()
+        q.is_idempotent = idem
+    else:
+        ps = cq.PreparedStatement([], b'id', None, 'q', 'ks', 4, None, None)
+        ps.is_idempotent = idem
+        q = ps
+    rf = cc.Session._create_response_future(sess, q, [] if kind == 'bound' else None, False, None, 10.0, cc.EXEC_PROFILE_DEFAULT)
+    speculative = not isinstance(rf._spec_execution_plan, NoSpeculativeExecutionPlan)
+    V.tag('shape', '%s/%s' % (kind, idem))
+    V.check(speculative == idem, 'non-idempotent-never-speculative', note='%s statement, is_idempotent=%r: speculative plan %r' % (kind, idem, speculative))
+    V.check(bool(timers) and (timers[0][1] == '_on_speculative_execute') == idem, 'speculative-timer-only-for-idempotent-statements', note=repr(timers))
+
+
 def jobs(tier):
     th = tier == 'thorough'
     resp = ('rows', 'read_timeout', 'write_timeout', 'unavailable', 'overloaded') + (('bootstrapping', 'server_error') if th else ())
     o = dict(max_seconds=2400 if th else 280)
-    js = [Job('idempotent', 'h_idempotence', dict(idempotent=True)), Job('spec-retry', 'h_spec_retry')]
+    js = [Job('idempotent', 'h_idempotence', dict(idempotent=True)), Job('spec-retry', 'h_spec_retry'), Job('speculative-gate', 'h_speculative_gate', {})]
     for r in range(len(resp)):
         js.append(Job('retries-r%d' % r, 'h_retries', dict(steps=7 if th else 5, calls=3 if th else 2, responses=resp),
                       dict(o, pin={'ev0_resp': r, 'ev0': 0})))
